@@ -529,6 +529,23 @@ def apply_rewrites(src, mask, it, ed, stats, spec_entry):
         if any(a <= lo + m.start() < b for a, b in r19_ranges): continue
         ed.replace(lo + m.start(), lo + m.end(), r11b_text(m.group(1)))
         stats['R11_to_string'] = stats.get('R11_to_string', 0) + 1
+    # R20: the statement `M.entry(K).or_insert(V);` => `map_entry_or_insert(&mut M, K, V);` -- wrapper whose body is that statement (assumed contract from
+    #      std's documentation: the value is inserted only if the key is absent).  vstd has no specification for the Entry API.
+    for m in re.finditer(r'(?<![\w.])((?:[a-z_]\w*)(?:\.[a-z_]\w*)*)\.entry\(', body):
+        if mask[lo + m.start()] != ord('c'): continue
+        pc = _close_paren(src, mask, lo + m.end() - 1)
+        if pc is None or pc > hi: continue
+        m2 = re.match(r'\s*\.\s*or_insert\(', src[pc:])
+        if not m2: continue
+        pc2 = _close_paren(src, mask, pc + m2.end() - 1)
+        if pc2 is None or pc2 > hi: continue
+        m3 = re.match(r'\s*;', src[pc2:])
+        # only as a statement of its own (the returned `&mut V` is not used)
+        prev = src[:lo + m.start()].rstrip()
+        if not m3 or not prev or prev[-1] not in ';{}': continue
+        K = src[lo + m.end():pc - 1].strip(); V = src[pc + m2.end():pc2 - 1].strip()
+        ed.replace(lo + m.start(), pc2, 'crate::spec::map_entry_or_insert(&mut %s, %s, %s)' % (m.group(1), K, V) + '\n' * src.count('\n', lo + m.start(), pc2))
+        stats['R20_entry_or_insert'] = stats.get('R20_entry_or_insert', 0) + 1
     # R17: `Vec::with_capacity(E)` => `vec_with_capacity(E)`: a wrapper whose body is that call and whose precondition is the allocation bound of the
     #      resource envelope (E <= 2^31-1 elements); vstd's own contract of with_capacity has no precondition, so a capacity computed from a negative
     #      operand (`n as usize`, a capacity-overflow panic) would go unnoticed
@@ -855,6 +872,22 @@ def r9_desugar_iterators(srcs, stats):
                 N, COND = mm.groups()
                 edits.append((x.start(), pc + m2.end(), '({ let mut r9_c: usize = 0; for %s in %s.iter() { if %s { r9_c += 1; } } r9_c })'
                               % (N, E, one_line(COND, rsitems.scan_tokens(COND), 0, len(COND))) + nl(x.start(), pc + m2.end()), 'R9d_filter_count'))
+        # k: `E.iter().any(|X| COND)` / `E.iter().all(|X| COND)`: the closure is evaluated front to back until the answer is known (std: "short-circuiting")
+        for x in re.finditer(PLACE + r'\.iter\(\)\s*\.\s*(any|all)\s*\(', src):
+            if not live(x.start()): continue
+            E, kind = re.sub(r'\s+', '', x.group(1)), x.group(2)
+            po = x.end() - 1; pc = _close_paren(src, mask, po)
+            if pc is None: continue
+            mm = re.match(r'\s*\|\s*(&?)\s*(\w+)\s*\|\s*(.+?)\s*$', src[po + 1:pc - 1], re.S)
+            if not mm or '|' in mm.group(3).replace('||', '') or '{' in mm.group(3): continue
+            AMP, X, COND = mm.groups()
+            cond = one_line(COND, rsitems.scan_tokens(COND), 0, len(COND))
+            bind = 'let %s = %s%s[r9_k];' % (X, '' if AMP else '&', E)           # `|&x|` binds the element itself (Copy), `|x|` a reference to it
+            if kind == 'any':
+                t = '({ let mut r9_b: bool = false; for r9_k in 0..%s.len() { %s if !r9_b && (%s) { r9_b = true; } } r9_b })' % (E, bind, cond)
+            else:
+                t = '({ let mut r9_b: bool = true; for r9_k in 0..%s.len() { %s if r9_b && !(%s) { r9_b = false; } } r9_b })' % (E, bind, cond)
+            edits.append((x.start(), pc, t + nl(x.start(), pc), 'R9k_any_all'))
         # e: for_each statement
         for x in re.finditer(PLACE + r'\.iter_mut\(\)\s*\.\s*for_each\s*\(', src):
             if not live(x.start()): continue
